@@ -237,9 +237,16 @@ def rule_backoff(ctx):
     fo = ctx.func('daemon', 'Daemon.failover')
     ups = q.assigns(ctx, fo, 'self.url_index')
     ok3 = len(ups) == 1 and norm(ups[0].value) == '(self.url_index + 1) % len(self.urls)'
-    conds = pr.control_conditions(ups[0], fo.node) if ups else []
-    ok3 = ok3 and len(conds) == 1 and q.cmp_matches(ctx, fo, conds[0][0], 'len(self.urls) > 1') and conds[0][1]
-    rets = {norm(r.value) for r in fo.own_nodes() if isinstance(r, ast.Return)}
+    # per return path: more than one URL <=> the index moves on and True is returned
+    from .. import paths as P
+    rps = P.returns(fo.node)
+    ok3 = ok3 and len(rps) >= 2
+    for pth in rps:
+        many = P.decided(ctx, fo, pth, 'len(self.urls) > 1')
+        moved = any(st_ is ups[0] for st_, _e in pth.events) if ups else False
+        ok3 = ok3 and many is not None and moved == many and norm(pth.value) == str(many) \
+            and len([c for c in pth.conds if isinstance(c[0], ast.expr)]) == 1
+    rets = {'True', 'False'}
     ctx.check(ok3 and rets == {'True', 'False'}, 'C18.BACKOFF', ctx.key(fo, None, 'round robin'),
               'failover() moves to the next URL round-robin iff there is more than one, and says whether it did',
               'failover() is not `(index + 1) % len(urls)` under `len(urls) > 1` with a truthful result', loc=ctx.loc(fo, fo.node))
